@@ -311,6 +311,20 @@ def cc_to_case(I, a, n):
         name = case.ty.split("::")[-1]
     joiners = {"Snake": (95, str.lower), "Kebab": (45, str.lower), "Cobol": (45, str.upper), "UpperKebab": (45, str.upper), "UpperSnake": (95, str.upper),
                "ScreamingSnake": (95, str.upper), "Lower": (32, str.lower), "Upper": (32, str.upper), "Flat": (None, str.lower), "UpperFlat": (None, str.upper)}
+    if name in ("Pascal", "UpperCamel", "Camel", "Title", "Train"):
+        # capitalised words: first character upper, the rest lower; Camel lower-cases the whole first word
+        from .models_core import unicode_map
+        words = cc_words(I, list(chars_of(a[0])))
+        sep = {"Title": 32, "Train": 45}.get(name)
+        out = []
+        for k, w in enumerate(words):
+            if k and sep is not None:
+                out.append(sep)
+            if name == "Camel" and k == 0:
+                out += unicode_map(I, w, str.lower)
+            else:
+                out += unicode_map(I, w[:1], str.upper) + unicode_map(I, w[1:], str.lower)
+        return RString(out)
     if name not in joiners:
         raise Unsupported("convert_case to_case(%s)" % name)
     sep, fn = joiners[name]
